@@ -19,6 +19,8 @@ sys.path.insert(0, os.path.dirname(os.path.abspath(__file__)))
 import vlib  # noqa: E402
 from vlib import Check, Inconclusive, SEED, log  # noqa: E402
 import fenspec  # noqa: E402
+import searchlib as sl  # noqa: E402
+import random  # noqa: E402
 
 VERIF = vlib.VERIF
 
@@ -258,6 +260,377 @@ def check_C10(tier):
     ck.cov["counters"] = cnt
     ck.cov["material_classes"] = res.get("extra", {}).get("classes")
     return ck.finish()
+
+
+# ------------------------------------------------------------------------------ search checks
+
+def search_positions(tier, rng):
+    """Positions (with their game history) taken from the TLC walk artefact."""
+    art = shared(tier)["walk"]
+    nodes = sl.load_nodes(art, want=lambda o: len(o["legal"]) > 0 and len(o["path"]) % 7 in (0, 3))
+    normal = [n for n in nodes if n["rep"] < 2 and n["pos"]["hmc"] < 100]
+    drawn = [n for n in nodes if n["rep"] >= 2 or n["pos"]["hmc"] >= 100]
+    rng.shuffle(normal)
+    rng.shuffle(drawn)
+    # the root positions themselves (rich middlegames, corner cases)
+    roots = sl.load_nodes(shared(tier)["tree"], want=lambda o: len(o["path"]) == 0 and len(o["legal"]) > 0)
+    return art, normal, drawn, roots
+
+
+def pv_item(rec, job):
+    lines = [l for l in rec["infos"] if l] + ([rec["pv"]] if rec["pv"] else [])
+    return {"k": "pv", "id": rec["id"], "pos": job["pos"], "best": rec["best"], "ponder": rec["ponder"],
+            "lines": lines, "allowed": job["searchmoves"]}
+
+
+def c05_discs(prop, recs, jobs, verdicts):
+    """Turns records + TLC verdicts into discrepancies of C05."""
+    byid = {j["id"]: j for j in jobs}
+    out = []
+
+    def d(kind, sig, rec, detail):
+        j = byid[rec["id"]]
+        out.append({"prop": prop, "kind": kind, "sig": sig, "fen": rec.get("fen") or sl.fen_of(j["pos"]),
+                    "detail": detail, "replay": {"job": j}})
+    for rec in recs:
+        j = byid[rec["id"]]
+        if rec["error"]:
+            kind = "search-hangs" if rec["error"].startswith("HANG") else "search-panics"
+            d(kind, kind + "/" + j["mode"], rec, {"error": rec["error"], "tag": j["tag"], "cfg": j["cfg"]})
+            continue
+        v = verdicts[rec["id"]]
+        if not v["hasLegal"]:
+            continue
+        if rec["results"] != 1:
+            d("result-count", "result-count/%d" % rec["results"], rec, {"results": rec["results"], "mode": j["mode"]})
+        if rec["best"] == -1:
+            sig = "best-move/none"
+            if rec["rep_root"]:
+                sig += "/root-already-drawn-by-repetition-or-50-moves"
+            d("no-best-move", sig, rec, {"mode": j["mode"], "tag": j["tag"]})
+        elif not v["bestLegal"]:
+            d("best-move-illegal", "best-move/illegal", rec, {"best": fenspec.mv_uci(rec["best"]), "tag": j["tag"], "cfg": j["cfg"]})
+        if rec["ponder"] != -1 and not v["ponderLegal"]:
+            d("ponder-move-illegal", "ponder/illegal", rec, {"best": fenspec.mv_uci(rec["best"]) if rec["best"] >= 0 else None,
+                                                             "ponder": fenspec.mv_uci(rec["ponder"]), "tag": j["tag"], "cfg": j["cfg"]})
+        if v["badLine"]:
+            lines = [l for l in rec["infos"] if l] + ([rec["pv"]] if rec["pv"] else [])
+            for (li, mi) in v["badLine"]:
+                which = "final" if (rec["pv"] and li == len(lines)) else "info"
+                d("pv-not-playable", "pv/illegal-move/" + which, rec,
+                  {"line": [fenspec.mv_uci(m) for m in lines[li - 1]], "first_illegal_index": mi, "tag": j["tag"], "cfg": j["cfg"], "mode": j["mode"], "nodes": j["nodes"]})
+        if rec["best"] != -1 and rec["pv"] and rec["pv"][0] != rec["best"]:
+            d("pv-head", "pv/does-not-start-with-best-move", rec, {"best": fenspec.mv_uci(rec["best"]), "pv0": fenspec.mv_uci(rec["pv"][0])})
+        if not rec["unchanged"]:
+            d("position-modified", "position-modified", rec, {})
+        if j["mode"] in ("infinite", "ponder") and rec["early_ms"] < -1.0:
+            d("result-before-stop", "result-before-stop/" + j["mode"], rec, {"early_ms": rec["early_ms"]})
+    return out
+
+
+def check_C05(tier):
+    ck = Check("C05", tier)
+    quick = tier == "quick"
+    rng = random.Random(SEED)
+    art, normal, drawn, roots = search_positions(tier, rng)
+    ck.add_tlc(art)
+    jobs = []
+
+    def add(node, mode, tag, **kw):
+        jobs.append(sl.job(node, len(jobs) + 1, mode, tag, **kw))
+    npos = 12 if quick else 120
+    base = normal[:npos] + roots[:6 if quick else 40]
+    for n in base:
+        add(n, "depth", "modes", depth=3)
+        add(n, "nodes", "modes", nodes=500)
+        add(n, "movetime", "modes", movetime=40)
+        add(n, "clock", "modes", time=400, inc=0)
+        add(n, "clock", "modes", time=300, inc=50, movestogo=5)
+        add(n, "infinite", "modes", stopafter=30, depth=4)
+        add(n, "ponder", "modes", stopafter=30, time=400, depth=4)
+        add(n, "ponderhit", "modes", stopafter=15, time=300)
+    # feature switches
+    cfgs = [{}, sl.cfg_all(False), {"UseQuiescence": False}]
+    cfgs += [{name: not getattr_default(name)} for name in sl.ALLSW]
+    for _ in range(6 if quick else 60):
+        cfgs.append({name: rng.random() < 0.5 for name in sl.ALLSW})
+    for n in (normal[npos:npos + (5 if quick else 40)] + roots[1:3]):
+        for c in cfgs:
+            add(n, "depth", "switches", depth=3, cfg=c)
+    # stop moments: a node limit n is the same code path as a stop request arriving at node n
+    for n in normal[npos + 5:npos + (8 if quick else 45)] + roots[1:2]:
+        ns = list(range(1, 151 if quick else 3000)) + (list(range(151, 1500, 7)) if quick else [])
+        for k in ns:
+            add(n, "nodes", "stop-sweep", nodes=k, depth=4)
+    # leftovers of earlier searches in the hash table
+    for n in normal[npos + 8:npos + (14 if quick else 60)] + roots[1:4]:
+        for pre in ("other", "same", "deeper"):
+            add(n, "depth", "prefill", depth=3, prefill=pre)
+            add(n, "nodes", "prefill", nodes=300, prefill=pre)
+    # roots that are already drawn by rule but have legal moves
+    for n in drawn[:6 if quick else 60]:
+        add(n, "depth", "drawn-root", depth=2)
+        add(n, "movetime", "drawn-root", movetime=30)
+    recs = sl.run_jobs(jobs, procs=12)
+    byid = {j["id"]: j for j in jobs}
+    items = [pv_item(r, byid[r["id"]]) for r in recs if not r["error"]]
+    verdicts, st = sl.tlc_check(items)
+    for dsc in c05_discs("C05", recs, jobs, verdicts):
+        ck.discs.append(dsc)
+        key = "C05|%s|%s" % (dsc["kind"], dsc["sig"])
+        ck.disc_count[key] = ck.disc_count.get(key, 0) + 1
+    if st:
+        ck.cov["states"] += st["distinct_states"]
+        ck.cov["transitions"] += st["states_generated"]
+    ck.cov["evaluations"] = len(recs)
+    ck.cov["distinct_nontrivial"] = len({(r["fen"], r["mode"], r["cfg"], byid[r["id"]]["nodes"], byid[r["id"]]["prefill"]) for r in recs
+                                        if byid[r["id"]]["tag"] != "modes" or r["mode"] != "depth"})
+    ck.cov["traces_validated_against_impl"] = len(items)
+    ck.cov["rule"] = ("real searches over positions (with their game histories) taken from TLC walks: 8 limit modes, every single feature "
+                      "switch flipped + seeded subsets, node limits 1..n as a deterministic sweep of the stop moment, hash table pre-filled by "
+                      "other/shallower/deeper searches, roots already drawn by rule; every reported best move, ponder move and PV line is "
+                      "validated as a behaviour of ChessGame by TLC (SearchCheck.tla); non-trivial = distinct (position, mode, switches, "
+                      "node limit, prefill) other than the plain fixed-depth search")
+    ck.cov["samples"] = [{"fen": r["fen"], "mode": r["mode"], "best": fenspec.mv_uci(r["best"]) if r["best"] >= 0 else None,
+                          "pv": [fenspec.mv_uci(m) for m in r["pv"]], "info_lines": len(r["infos"])} for r in recs[:3]]
+    ck.cov["jobs_by_family"] = {t: sum(1 for j in jobs if j["tag"] == t) for t in sorted({j["tag"] for j in jobs})}
+    return ck.finish()
+
+
+def check_C07(tier):
+    ck = Check("C07", tier)
+    quick = tier == "quick"
+    rng = random.Random(SEED)
+    art, normal, drawn, roots = search_positions(tier, rng)
+    ck.add_tlc(art)
+    jobs = []
+
+    def add(node, mode, tag, **kw):
+        jobs.append(sl.job(node, len(jobs) + 1, mode, tag, **kw))
+    # every node of searches under the default configuration and combinations of the pruning switches
+    combos = [{}]
+    if quick:
+        for _ in range(11):
+            combos.append({n: rng.random() < 0.5 for n in sl.PRUNING})
+        combos.append({n: False for n in sl.PRUNING})
+    else:
+        for m in range(128):
+            combos.append({n: bool(m >> i & 1) for i, n in enumerate(sl.PRUNING)})
+    pos = normal[:(24 if quick else 150)] + roots[:(10 if quick else 60)]
+    for i, n in enumerate(pos):
+        for ci, c in enumerate(combos):
+            if quick and (i + ci) % 3:
+                continue
+            add(n, "depth", "pruning", depth=4 if quick else 5, cfg=c)
+    # converse: roots without legal moves
+    tree = shared(tier)["tree"]
+    ck.add_tlc(tree)
+    term = sl.load_nodes(tree, want=lambda o: len(o["legal"]) == 0)
+    rng.shuffle(term)
+    for n in term[:(40 if quick else 400)]:
+        add(n, "depth", "terminal-root", depth=2)
+        add(n, "movetime", "terminal-root", movetime=20)
+    recs = sl.run_jobs(jobs, procs=12)
+    byid = {j["id"]: j for j in jobs}
+    # terminal classifications, de-duplicated by position and kind
+    events = {}
+    for r in recs:
+        if r["error"]:
+            d = {"prop": "C07", "kind": "search-fails", "sig": "search-fails", "fen": r["fen"], "detail": r["error"], "replay": {"job": byid[r["id"]]}}
+            ck.discs.append(d)
+            ck.disc_count["C07|search-fails|search-fails"] = ck.disc_count.get("C07|search-fails|search-fails", 0) + 1
+            continue
+        for e in r["terminal"]:
+            events.setdefault((e["fen"], e["mate"]), (e, r["id"]))
+    items = []
+    keys = list(events)
+    for i, k in enumerate(keys):
+        items.append({"k": "term", "id": i + 1, "pos": fenspec.fen_to_state(k[0]), "mate": k[1]})
+    base = len(items)
+    troot = [r for r in recs if byid[r["id"]]["tag"] == "terminal-root" and not r["error"]]
+    for r in troot:
+        items.append({"k": "root", "id": base + r["id"], "pos": byid[r["id"]]["pos"]})
+    verdicts, st = sl.tlc_check(items)
+    if st:
+        ck.cov["states"] += st["distinct_states"]
+        ck.cov["transitions"] += st["states_generated"]
+
+    def disc(kind, sig, fen, detail, replay):
+        ck.discs.append({"prop": "C07", "kind": kind, "sig": sig, "fen": fen, "detail": detail, "replay": replay})
+        key = "C07|%s|%s" % (kind, sig)
+        ck.disc_count[key] = ck.disc_count.get(key, 0) + 1
+    nmate = nstale = 0
+    for i, k in enumerate(keys):
+        v = verdicts[i + 1]
+        e, rid = events[k]
+        nmate += k[1]
+        nstale += not k[1]
+        where = "qsearch" if e["qs"] else "search"
+        if not v["noLegal"]:
+            disc("scored-as-%s-with-legal-moves" % ("mate" if k[1] else "stalemate"),
+                 "%s/%s-with-legal-moves" % (where, "mate" if k[1] else "stalemate"), k[0],
+                 {"ply": e["ply"], "cfg": byid[rid]["cfg"]}, {"job": byid[rid], "node_fen": k[0]})
+        elif v["inCheck"] != k[1]:
+            disc("mate-stalemate-confused", "%s/kind" % where, k[0], {"scored_as_mate": k[1], "in_check": v["inCheck"]}, {"job": byid[rid]})
+    for r in troot:
+        v = verdicts[base + r["id"]]
+        want = -10000 if v["inCheck"] else 0
+        bad = []
+        if r["value"] != want:
+            bad.append("value %d, expected %d" % (r["value"], want))
+        if r["best"] != -1:
+            bad.append("best move %s reported" % fenspec.mv_uci(r["best"]))
+        if v["inCheck"] and r["stat_mates"] < 1:
+            bad.append("checkmate not counted")
+        if not v["inCheck"] and r["stat_stalemates"] < 1:
+            bad.append("stalemate not counted")
+        if bad:
+            disc("terminal-root", "terminal-root/" + ("mate" if v["inCheck"] else "stalemate"), r["fen"], bad, {"job": byid[r["id"]]})
+    ck.cov["evaluations"] = len(recs)
+    ck.cov["distinct_nontrivial"] = len(keys)
+    ck.cov["traces_validated_against_impl"] = len(items)
+    ck.cov["terminal_events"] = {"mate": nmate, "stalemate": nstale, "terminal_roots": len(troot)}
+    ck.cov["rule"] = ("every mate/stalemate classification made by search and qsearch (hook) during depth-%d searches of walk positions under the "
+                      "default configuration and %d combinations of the seven pruning switches, de-duplicated by position and kind, each "
+                      "validated by TLC: Legal(pos) = {} and mate <=> InCheck; plus roots without legal moves; non-trivial = distinct "
+                      "classified positions" % (4 if quick else 5, len(combos)))
+    ck.cov["samples"] = [{"fen": k[0], "scored_as": "mate" if k[1] else "stalemate"} for k in keys[:4]] or ["no terminal node was reached"]
+    return ck.finish()
+
+
+def check_C13(tier):
+    ck = Check("C13", tier)
+    quick = tier == "quick"
+    rng = random.Random(SEED)
+    import shutil
+    cnt = {}
+
+    def disc(kind, sig, fen, detail, replay=None):
+        ck.discs.append({"prop": "C13", "kind": kind, "sig": sig, "fen": fen, "detail": detail, "replay": replay or {}})
+        key = "C13|%s|%s" % (kind, sig)
+        ck.disc_count[key] = ck.disc_count.get(key, 0) + 1
+    # ---- clock budget: TLC enumerates the grid, the driver plays the clock game with the engine's function,
+    #      TLC validates the recorded games against TimeControl.tla
+    times = [1, 5, 20, 100, 500, 2000, 10000, 60000, 600000, 7200000]
+    incs = [0, 10, 1000, 10000, 60000]
+    mtg = [0, 1, 2, 5, 40]
+    if not quick:
+        times += [3, 50, 250, 1000, 5000, 30000, 180000, 1800000]
+        incs += [1, 100, 3000, 30000]
+        mtg += [3, 10, 20, 80]
+
+    def st(x):
+        return "{" + ", ".join(map(str, x)) + "}"
+    gcfg = ("INIT GridInit\nNEXT GridNext\nCONSTANTS\n  Times = %s\n  Incs = %s\n  MovesToGo = %s\n  Phases = {0, 12, 24}\n"
+            '  TraceFile = "none"\nINVARIANT GridObs\nCHECK_DEADLOCK FALSE\n' % (st(times), st(incs), st(mtg)))
+    ga = vlib.tlc("TimeControl", gcfg, workers=4, tag="tc-grid")
+    ck.add_tlc(ga)
+    run = vlib.scratch("tc")
+    try:
+        tf = os.path.join(run, "tc.ndjson")
+        vlib.run_driver(["timectl", "-grid", vlib.art_out(ga), "-trace", tf], cwd=run)
+        trace = open(tf).read()
+    finally:
+        shutil.rmtree(run, ignore_errors=True)
+    lines = trace.splitlines()
+    tcfg = ('INIT TraceInit\nNEXT TraceNext\nCONSTANTS\n  Times = {}\n  Incs = {}\n  MovesToGo = {}\n  Phases = {}\n'
+            '  TraceFile = "trace.ndjson"\nINVARIANT BadObs\nPOSTCONDITION TraceAccepted\nCHECK_DEADLOCK FALSE\n')
+    ta = vlib.tlc("TimeControl", tcfg, files={"trace.ndjson": trace}, workers=1, tag="tc-trace", cache=False)
+    tst = vlib.art_stats(ta)
+    if tst.get("diameter", 0) - 1 != len(lines):
+        raise Inconclusive("clock-game trace not consumed completely (%s of %d lines)" % (tst.get("diameter"), len(lines)))
+    bad = []
+    for l in vlib.tlc_lines(ta, '<<"BADSTEP"'):
+        bad.append(int(l.split(",")[1].strip().rstrip(">\n")))
+    shutil.rmtree(ta, ignore_errors=True)
+    ck.cov["states"] += tst["distinct_states"]
+    ck.cov["transitions"] += tst["states_generated"]
+    games = sum(1 for l in lines if '"start"' in l)
+    cnt["clock_games"] = games
+    cnt["clock_moves"] = len(lines) - games
+    for b in bad:
+        ev = json.loads(lines[b - 1])
+        i = b - 1
+        while json.loads(lines[i])["ev"] != "start":
+            i -= 1
+        start = json.loads(lines[i])
+        sig = "clock-budget/exceeds-remaining-time" if ev["b"] > ev["rem"] else "clock-budget/clock-runs-out"
+        if ev["b"] > ev["rem"] and start["inc"] > 0:
+            sig += "/increment>0"
+        disc("clock-budget", sig, "", {"game": {k: start[k] for k in ("time", "inc", "movestogo", "phase", "stm")},
+                                        "move": b - i, "remaining_ms": ev["rem"], "budget_ms": ev["b"]},
+             {"trace": [json.loads(x) for x in lines[i:b]]})
+    # ---- searches: depth, nodes, move time, searchmoves
+    art, normal, drawn, roots = search_positions(tier, rng)
+    jobs = []
+
+    def add(node, mode, tag, **kw):
+        jobs.append(sl.job(node, len(jobs) + 1, mode, tag, **kw))
+    pos = normal[:(10 if quick else 80)] + roots[:(8 if quick else 60)]
+    for n in pos:
+        for d in (1, 2, 3, 4):
+            add(n, "depth", "depth", depth=d)
+        for k in (1, 50, 400, 3000):
+            add(n, "nodes", "nodes", nodes=k)
+        for _ in range(3 if quick else 10):
+            sub = [m for m in n["legal"] if rng.random() < 0.3] or [rng.choice(n["legal"])]
+            add(n, "depth", "searchmoves", depth=3, searchmoves=sub)
+    for n in pos[:(6 if quick else 30)]:
+        for t in (30, 60, 120, 250) + (() if quick else (500,)):
+            add(n, "movetime", "movetime", movetime=t)
+    recs = sl.run_jobs(jobs, procs=6)     # fewer processes: wall-clock clauses are measured here
+    byid = {j["id"]: j for j in jobs}
+    items = [{"k": "root", "id": r["id"], "pos": byid[r["id"]]["pos"]} for r in recs if not r["error"] and byid[r["id"]]["tag"] == "depth"]
+    items += [pv_item(r, byid[r["id"]]) for r in recs if not r["error"] and byid[r["id"]]["tag"] == "searchmoves"]
+    verdicts, st2 = sl.tlc_check(items)
+    if st2:
+        ck.cov["states"] += st2["distinct_states"]
+        ck.cov["transitions"] += st2["states_generated"]
+    slow = []
+    for r in recs:
+        j = byid[r["id"]]
+        if r["error"]:
+            disc("search-fails", "search-fails", r["fen"], r["error"], {"job": j})
+            continue
+        cnt[j["tag"]] = cnt.get(j["tag"], 0) + 1
+        if j["tag"] == "depth":
+            v = verdicts[r["id"]]
+            if v["nLegal"] >= 2 and not r["rep_root"] and r["depth"] != j["depth"]:
+                disc("depth-limit", "depth/iterations", r["fen"], {"asked": j["depth"], "completed": r["depth"]}, {"job": j})
+        elif j["tag"] == "nodes":
+            if r["nodes"] > j["nodes"] + 300:
+                disc("node-limit", "nodes/overshoot", r["fen"], {"limit": j["nodes"], "visited": r["nodes"]}, {"job": j})
+        elif j["tag"] == "searchmoves":
+            v = verdicts[r["id"]]
+            if not v["allowedOk"]:
+                disc("searchmoves", "searchmoves/best-move-not-in-list", r["fen"],
+                     {"searchmoves": [fenspec.mv_uci(m) for m in j["searchmoves"]], "best": fenspec.mv_uci(r["best"])}, {"job": j})
+        elif j["tag"] == "movetime":
+            if r["elapsed_ms"] > j["movetime"] + 250:
+                slow.append(j)
+    # a slow measurement is repeated twice (alone) before it counts
+    for j in slow:
+        again = [sl.run_jobs([j], procs=1)[0]["elapsed_ms"] for _ in range(2)]
+        if min(again) > j["movetime"] + 250:
+            disc("move-time", "movetime/late", sl.fen_of(j["pos"]), {"movetime": j["movetime"], "elapsed_ms": again}, {"job": j})
+    ck.cov["evaluations"] = len(recs) + cnt["clock_moves"]
+    ck.cov["distinct_nontrivial"] = games + len(recs)
+    ck.cov["traces_validated_against_impl"] = games + len(items)
+    ck.cov["counters"] = cnt
+    ck.cov["rule"] = ("clock budget: every point of the grid remaining time x increment x moves-to-go x game phase x side (enumerated by TLC) is "
+                      "played as a clock game with the engine's budget function and validated against TimeControl.tla (budget <= remaining, "
+                      "clock never negative); searches: depth 1-4, node limits, seeded searchmoves subsets (best move checked by TLC), move "
+                      "times with 250 ms allowance; non-trivial = all games and searches")
+    ck.cov["samples"] = [json.loads(x) for x in lines[16:20]]
+    ck.assumptions += ["move-time allowance 250 ms, a late answer is re-measured twice alone", "node overshoot allowance 300 nodes"]
+    return ck.finish()
+
+
+def getattr_default(name):
+    """Default value of a boolean search switch (mirrors internal/config/searchconfig.go; only used to
+    flip single switches - a wrong entry merely changes which configuration is explored)."""
+    off = {"UseThreatExt", "UseEvalTT"}
+    return name not in off
 
 
 def tt_cfg(nslots, tags, depths, vals, types, moves, maxage, maxops, chains, seed, extra=""):
